@@ -24,9 +24,12 @@ Record oquirks := {
   q_text_omit_zero : bool;               (* text omits the line when 0 and the column when 0: `p:3` is ambiguous *)
   q_text_raw_newline : bool;             (* text prints newlines inside paths / messages raw *)
   q_group_missing_config_ignored : bool; (* `thailint --config missing.yaml <cmd>`: as the source has it, exit k iff it checks (true) / exit 2 (false) *)
-  q_dry_empty_config_crashes : bool      (* `dry --config <empty file>`: as the source has it, crash unless guarded (true) / never (false) *)
+  q_dry_empty_config_crashes : bool;     (* `dry --config <empty file>`: as the source has it, crash unless guarded (true) / never (false) *)
+  q_valueerror_aborts_run : bool         (* a rule failing with any ValueError subclass (UnicodeEncodeError from the SQLite storage of the
+                                            stringly-typed rule) ends the whole run: policy of _safe_check_rule as the source has it (true) /
+                                            only a genuine configuration ValueError ends the run (false) *)
 }.
-Definition ideal : oquirks := Build_oquirks false false false false false false.
+Definition ideal : oquirks := Build_oquirks false false false false false false false.
 
 (* ------------------------------------------------------------------ small string library *)
 Definition nl : ascii := ascii_of_nat 10.
@@ -138,6 +141,23 @@ Fixpoint san_go (s : string) (need lo hi : nat) (buf : string) : string :=
     end
   end.
 Definition sanitize (s : string) : string := san_go s 0 0 0 EmptyString.
+
+(* specification side: the well-formed UTF-8 byte sequences (Unicode Table 3-7: no overlong forms, no encoded
+   surrogates, nothing above U+10FFFF) as a recogniser of its own; compared with CPython's strict decoder every run *)
+Fixpoint utf8_valid_go (s : string) (need lo hi : nat) : bool :=
+  match s with
+  | EmptyString => match need with O => true | _ => false end
+  | String a r =>
+    let b := nat_of_ascii a in
+    match need with
+    | O => if (b <? 128)%nat then utf8_valid_go r 0 0 0
+           else match utf8_start b with Some (n, l, h) => utf8_valid_go r n l h | None => false end
+    | S n => if ((lo <=? b) && (b <=? hi))%nat
+             then match n with O => utf8_valid_go r 0 0 0 | _ => utf8_valid_go r n 128 191 end
+             else false
+    end
+  end.
+Definition utf8_valid (s : string) : bool := utf8_valid_go s 0 0 0.
 
 (* ------------------------------------------------------------------ leaves and f-strings *)
 Inductive lval := VS (s : string) | VI (z : Z).
@@ -329,6 +349,36 @@ Definition usage_outcome (q : oquirks) (cmd : string) (c : uclass) : outcome :=
 (* what the property demands *)
 Definition spec_outcome (c : uclass) : outcome :=
   match c with UEmptyConfig => OPerformed | _ => OExit 2 end.
+
+(* ------------------------------------------------------------------ a rule that fails while a file is linted *)
+(* exception classes by their builtin ancestry (CPython; the harness checks it with issubclass every run) *)
+Inductive excls := EUnicodeEncode | EConfigValue | EOther.
+Definition ancestors (e : excls) : list string :=
+  match e with
+  | EUnicodeEncode => ["UnicodeEncodeError"; "UnicodeError"; "ValueError"; "Exception"]
+  | EConfigValue => ["ValueError"; "Exception"]
+  | EOther => ["Exception"]
+  end.
+(* first except clause of Orchestrator._safe_check_rule that matches: Some true = re-raised, Some false = swallowed *)
+Fixpoint first_handler (anc : list string) (policy : list (string * bool)) : option bool :=
+  match policy with
+  | [] => None
+  | (name, act) :: r => if smem name anc then Some act else first_handler anc r
+  end.
+Definition rule_failure_aborts (q : oquirks) (e : excls) : bool :=
+  if q_valueerror_aborts_run q
+  then match first_handler (ancestors e) rule_exception_policy with Some act => act | None => true end
+  else match e with EConfigValue => true | _ => false end.
+
+(* a linted file as far as this failure is concerned: is its name undecodable (surrogate-escaped bytes), and how many records
+   (validation patterns, string-argument calls, string comparisons) do the stringly-typed analyzers store for it; sqlite3 cannot
+   bind a str with a lone surrogate (library oracle), so storing at least one record for such a file raises UnicodeEncodeError *)
+Record lintfile := { lf_undecodable : bool; lf_records : nat }.
+Definition storage_raises (f : lintfile) : bool := lf_undecodable f && (0 <? lf_records f)%nat.
+
+(* outcome of a run on existing paths with a usable configuration *)
+Definition run_outcome (q : oquirks) (files : list lintfile) : outcome :=
+  if existsb (fun f => storage_raises f && rule_failure_aborts q EUnicodeEncode) files then site "linting_error" else OPerformed.
 
 (* ------------------------------------------------------------------ where violations with line 0 come from *)
 (* `x or k` on an optional int *)
